@@ -180,6 +180,49 @@ func report(eng *Engine, prop, tier string, seed int, verif, outDir string, cfg 
 		}
 		violations = append(violations, vs...)
 	}
+	// frame declarations (pure / frame none) of repository functions this check relies on: those that passed the
+	// syntactic frame check on the pinned tree (baseline/frames_ok.json) must still pass
+	frameInfo := map[string]any{}
+	{
+		var okBase []string
+		_ = readJSON(filepath.Join(verif, "baseline", "frames_ok.json"), &okBase)
+		wasOK := map[string]bool{}
+		for _, n := range okBase {
+			wasOK[n] = true
+		}
+		used := map[string]bool{}
+		for _, f := range funcs {
+			used[f] = true
+		}
+		for _, k := range sortedKeys(eng.fnByKey) {
+			fn := eng.fnByKey[k]
+			if !eng.isRepoFn(fn) {
+				continue
+			}
+			if c := eng.contractOf(fn); c != nil && calleeContracts[c.Key] {
+				used[shortFn(fn)] = true
+			}
+		}
+		verdicts := frameVerdicts(eng)
+		var checked, assumed []string
+		for _, n := range sortedKeys(verdicts) {
+			if !used[n] {
+				continue
+			}
+			if verdicts[n] == "" {
+				checked = append(checked, n)
+				continue
+			}
+			assumed = append(assumed, n+": "+verdicts[n])
+			if wasOK[n] {
+				path := filepath.Join(replayDir, trunc(reSafeName.ReplaceAllString(n+"#frame", "_"), 120)+".txt")
+				os.WriteFile(path, []byte(fmt.Sprintf("property: %s\nobligation: %s#frame#declared\nThe function is declared pure / frame none and is used as such at call sites of this check; the declaration passed the syntactic frame check on the pinned tree and no longer does: it %s.\nno-failing-input-found\n", prop, n, verdicts[n])), 0o644)
+				violations = append(violations, fmt.Sprintf("VIOLATION property=%s replay=%s obligation=%s#frame#declared status=frame-declaration-broken no-failing-input-found", prop, path, n))
+			}
+		}
+		frameInfo["checked_syntactically"] = checked
+		frameInfo["assumed"] = assumed
+	}
 	coverFail := 0
 	for _, c := range covers {
 		solverSecs += c.Secs
@@ -259,6 +302,7 @@ func report(eng *Engine, prop, tier string, seed int, verif, outDir string, cfg 
 		"vacuity_covers":                          map[string]int{"checked": len(covers), "contradictory": coverFail},
 		"not_covered":                             cfg.NotCovered,
 		"bounded_standins":                        standinRes,
+		"frame_declarations":                      frameInfo,
 		"contract_files":                          eng.contractFiles,
 		"callee_contracts_used":                   sortedKeys(calleeContracts),
 	}
